@@ -146,6 +146,12 @@ func c01(r *Report) propMeta {
 		r.ctorField("newresult", "x/oracle/types.NewResult", "Result."+f, i)
 	}
 
+	r.LoopVisitsAll("every-pending-request-resolved", "x/oracle.EndBlocker", "Keeper.ResolveRequest", LoopOpts{})
+	r.LoopVisitsAll("every-expired-request-resolved", "x/oracle/keeper.Keeper.ProcessExpiredRequests", "Keeper.ResolveExpired", LoopOpts{MaxOtherExits: 1}) // reviewed `break` at the first request not yet expired
+
+	r.Rule("C01.R10", "store-key agreement: every point read/delete addresses a written key family")
+	r.StoreKeyAgreement("store-keys", "oracle", 14, nil)
+
 	return propMeta{
 		Decided: []string{
 			"R1 result/report/cursor/pending stores are written only by their single setter",
@@ -156,6 +162,7 @@ func c01(r *Report) propMeta {
 			"R6 ResolveRequest runs exactly one of ResolveSuccess/ResolveFailure on every path, each saves exactly one result with its own status constant",
 			"R7 EndBlocker resolves, then clears the list exactly once with a fresh empty list, then processes expiry",
 			"R9 ReportData / AddReport / CheckValidReport reject only for the frozen set of reasons (a new rejection, e.g. a height-based expiry test in the message path, is reported)", "R8 every NewResult argument is the like-named field of the stored request / the live report count / block time",
+			"R10 every KV-store Get/Has/Delete of x/oracle uses a key builder of x/oracle/types that some Set of the module also uses (a probe of an iteration prefix or of a sibling family is always-empty state)",
 		},
 		Undecided: []string{"correctness of the owasm script output", "that the pending list never carries a stale id across blocks (history invariant; R7 is its structural half)", "interleavings beyond the per-path facts"},
 		Assume:    []string{"go/types + go/ssa + VTA call graph are sound for this reflection-free keeper code", "baseapp runTx executes a message atomically", "genesis import is trusted (InitGenesis may write the stores)"},
